@@ -3,6 +3,7 @@ CONSTANTS
   Pres = {"fresh", "offerer", "answerer"}
   Modes = {"WebRtc", "Srtp", "Rtp"}
   Medias = {"av"}
+  Envs = {"ok"}
   LocalClasses = {"fresh", "changed", "unchanged"}
   RemoteClasses = {"fresh", "changed", "unchanged", "nofp", "badalg", "mid65535"}
   MaxLen = 6
